@@ -1028,6 +1028,7 @@ int check_main(int argc, char **argv, Engine &engine) {
     Json minimal = minimise(engine, cse, v.vclass, known, false, min_time,
                             timeout, attempts, last);
     std::string rdir = verif_root() + "/replays";
+    mkdir(verif_root().c_str(), 0755);
     mkdir(rdir.c_str(), 0755);
     char rp[512];
     const char *partname = getenv("VERIF_EVIDENCE_PART");
